@@ -36,8 +36,15 @@ def topk(a, k, axis=-1, split_every=None):
         keepdims=True,
         dtype=a.dtype,
         split_every=split_every,
-        output_size=abs(k),
+        output_size=_topk_output_size(a, k, axis),
     )
+
+
+def _topk_output_size(a, k, axis):
+    """Number of elements topk returns along ``axis``: an axis shorter than
+    ``abs(k)`` is returned whole (its length may be unknown)."""
+    n = a.shape[axis]
+    return abs(k) if np.isnan(n) else min(abs(k), n)
 
 
 def argtopk(a, k, axis=-1, split_every=None):
@@ -77,6 +84,6 @@ def argtopk(a, k, axis=-1, split_every=None):
         dtype=np.intp,
         split_every=split_every,
         concatenate=False,
-        output_size=abs(k),
+        output_size=_topk_output_size(a, k, axis),
         meta=meta,
     )
